@@ -48,6 +48,9 @@ class Cb:
         CALLS.append((self.cid, type(event).__name__, event.name, event.data.get('s'), event.data.get('hop'),
                       event.data.get('delay')))
 
+    def deliver(self, event):
+        self(event)
+
 
 class Detacher:
     """recording callable that, on its first delivery, detaches the first other listener of its sender"""
@@ -235,7 +238,9 @@ class System:
                 target = Detacher(st, x)
                 ref.nodes[x].g_armed = True
             else:
-                target = its[tv] if tk == 'i' else st['cbs'][tv]
+                # callable 0 is a callable object the harness keeps; callable 1 is a bound method of an object that
+                # nobody else refers to: a binding keeps its target alive
+                target = its[tv] if tk == 'i' else (st['cbs'][tv] if tv == 0 else Cb(tv).deliver)
             lst = its[x].bind(target)
             if tk == 'g':
                 target.me = lst
